@@ -186,10 +186,23 @@ def run(ctx):
   P = cs.params[0]
   skips = [n for n in walk_local(cs.node) if isinstance(n, ast.If) and '_retrieve_constant' in u(n.test) and 'macro' in u(n.test)
            and isinstance(n.body[-1], ast.Continue)]
+  if not skips:
+    # by the facts: the '# Parameters for' header is emitted (or the entry is put aside for the section listing) only where the
+    # configurable is known to be neither the macro nor the constant-lookup configurable
+    import re as _re2
+    def excluded(fs):
+      return any(f_[0] == 'c' and f_[2] is False and _re2.fullmatch(r'_REGISTRY\[.+\]\.wrapped in \((macro, _retrieve_constant|_retrieve_constant, macro)\)', f_[1])
+                 for f_ in fs) or any(f_[0] == 'c' and f_[2] is False and _re2.fullmatch(r'.+\.wrapped in \((macro, _retrieve_constant|_retrieve_constant, macro)\)', f_[1]) for f_ in fs)
+    for n in g3.live_nodes():
+      if n.ast is not None and n.kind == 'stmt' and ('Parameters for' in u(n.ast) or
+                                                      (isinstance(n.ast, ast.Expr) and isinstance(n.ast.value, ast.Call) and isinstance(n.ast.value.func, ast.Attribute)
+                                                       and n.ast.value.func.attr == 'append' and n.loops)):
+        if excluded(facts3[n.id]):
+          skips.append(n)
   ctx.check(bool(skips), 'C07.sections', construct(cs), 'sections for the macro and constant configurables are skipped in the per-configurable listing',
             'the per-configurable listing no longer skips macro / constant-lookup entries: constant lookups would get a section', cs.loc(), instance='skip')
   import re as _re
-  is_macro_test = lambda e: bool(_re.fullmatch(r'(_REGISTRY\[\w+\]\.wrapped==macro|macro==_REGISTRY\[\w+\]\.wrapped)', u(e).replace(' ', '')))
+  is_macro_test = lambda e: bool(_re.fullmatch(r'(_REGISTRY\[.+\]\.wrapped==macro|macro==_REGISTRY\[.+\]\.wrapped)', u(e).replace(' ', '')))
   mac = [n for n in walk_local(cs.node) if isinstance(n, ast.If) and is_macro_test(n.test)]
   mac += [n for n in walk_local(cs.node) if isinstance(n, ast.comprehension) and any(is_macro_test(i) for i in n.ifs)]
   ctx.check(bool(mac), 'C07.sections', construct(cs), 'macro entries are collected for the macro block', 'macro entries are no longer collected into the macro block',
